@@ -2074,8 +2074,16 @@ impl PeerConnection {
             handles.push(handle);
         }
 
+        // Build the guard *outside* the async block: a future that is dropped
+        // before its first poll (close() landing right after start_dtls
+        // returns, so the caller's select! takes another branch first, or the
+        // connection task being aborted on Drop) never runs its body. A guard
+        // created inside the body would then never exist, the JoinHandles would
+        // merely be detached, and the loops that never finish on their own (the
+        // pending() placeholders, the DataChannel listener) would leak.
+        let guard = LoopsGuard(handles);
         Box::pin(async move {
-            let _guard = LoopsGuard(handles);
+            let _guard = guard;
             done.notified().await;
         })
     }
